@@ -214,14 +214,28 @@ class RandomGeneratorNode(Node):
         seed_seq = seed_seq_cls(**seed_seq_state)
 
         bit_generator_state = self.children["bit_generator_state"].construct()
-        bit_generator_cls = gettype(
-            "numpy.random", bit_generator_state["bit_generator"]
-        )
+        bit_generator_cls = get_bit_generator_cls(bit_generator_state["bit_generator"])
         bit_generator = bit_generator_cls(seed_seq)
         bit_generator.state = bit_generator_state
 
         # next create the generator instance
         return gettype(self.module_name, self.class_name)(bit_generator=bit_generator)
+
+
+def get_bit_generator_cls(name: str) -> Any:
+    """Return the numpy bit generator class called ``name``.
+
+    The name comes from the archive and is not audited, so anything in
+    ``numpy.random`` that is not a bit generator class is refused instead of
+    being called.
+    """
+    bit_generator_cls = gettype("numpy.random", name)
+    if not (
+        isinstance(bit_generator_cls, type)
+        and issubclass(bit_generator_cls, np.random.BitGenerator)
+    ):
+        raise TypeError(f"numpy.random.{name} is not a bit generator")
+    return bit_generator_cls
 
 
 def dtype_get_state(obj: Any, save_context: SaveContext) -> dict[str, Any]:
